@@ -88,7 +88,7 @@ func init() {
 	c12l1 := &l1Profile{Prop: "C12", Reimport: 2, Blocks: [2]int{12, 50}, MaxTx: 5, Crash: 4, Periods: []time.Duration{time.Second, 10 * time.Second, time.Hour}, RegFee: true,
 		W:       map[string]int{"create": 8, "deposit": 4, "propose": 14, "delete": 12, "claim": 4, "updProposer": 16, "updChallenger": 16, "batchInfo": 10, "metadata": 8, "oracleCfg": 8, "params": 6, "recordBatch": 2},
 		NonTriv: func(w *l1World) bool { return w.succ["updProposer"]+w.succ["updChallenger"] >= 2 }}
-	c12l2 := &l2Profile{Prop: "C12", Reimport: 2, Blocks: [2]int{12, 50}, MaxTx: 5, Crash: 4, Hooks: 5, BadRcpt: 5, Plans: true,
+	c12l2 := &l2Profile{Prop: "C12", Reimport: 2, Blocks: [2]int{12, 50}, MaxTx: 5, Crash: 4, Hooks: 15, BadRcpt: 5, Plans: true,
 		W:       map[string]int{"relay": 12, "withdraw": 3, "send": 3, "addval": 12, "rmval": 8, "params": 18, "spend": 8, "bridgeinfo": 14, "exec": 22},
 		NonTriv: func(w *l2World) bool { return w.succ["params"]+w.succ["exec"] >= 2 }}
 	l1run, l2run := runL1(c12l1), runL2(c12l2)
